@@ -51,7 +51,11 @@ def unitStep (args : List String) : Option String :=
     | some t, some as =>
       let s := submitAll (newSel kStd t) (coinsOfAmts as)
       let g := match s.guard with | some g => toString g.amt | none => "-"
-      some s!"k={kStd} base={showNats (sortDescNat (s.base.toList.map (·.amt)))} guard={g}"
+      -- spec: the k largest amounts not above the target, and the smallest amount above it
+      let high := as.filter (· > t)
+      let sg := if high.isEmpty then "-" else toString (high.foldl min (high.headD 0))
+      let sp := s!"k={kStd} base={showNats ((sortDescNat (as.filter (· ≤ t))).take kStd)} guard={sg}"
+      some (s!"k={kStd} base={showNats (sortDescNat (s.base.toList.map (·.amt)))} guard={g}" ++ "\t" ++ sp)
     | _, _ => some "bad-op"
   | ["opt", t, as] =>
     match t.toNat?, parseNats as with
@@ -64,7 +68,9 @@ def unitStep (args : List String) : Option String :=
     match t.toNat?, parseNats as with
     | some t, some as =>
       match pipeline kStd t (coinsOfAmts as) with
-      | .ok (sel, found, of) => some s!"sel={showNats (sortDescNat (sel.map (·.amt)))} found={found} overfull={if of then 1 else 0}"
+      | .ok (sel, found, of) =>
+        let m := s!"sel={showNats (sortDescNat (sel.map (·.amt)))} found={found} overfull={if of then 1 else 0}"
+        m
       | .error _ => some "err"
     | _, _ => some "bad-op"
   | ["subfee", fee, amts, sel] =>
@@ -248,7 +254,7 @@ def manualModel (st : St) (r : ManReq) : Except Model.Fee.Err (ManualRes × Stri
   let mut senders : List Addr := []
   let mut seen : List (TxId × Nat) := []
   for i in r.ins do
-    if seen.contains i then throw .param                     -- an outpoint named twice
+    if Gen.TxBuild.manualRejectsDuplicates && seen.contains i then throw .param    -- an outpoint named twice
     seen := i :: seen
     let prev : Option Tx := match existsMsgTx st r.w i with
       | some (t, _) => some t
